@@ -250,7 +250,7 @@ theorem simplifyG_ok : ∀ g : Geom α, (simplifyG s g).isOk = true := by
         obtain ⟨g', hg'⟩ := (isOk_iff _).1 (ih g (by simp))
         obtain ⟨rest', hrest⟩ := (isOk_iff _).1 (ihr (fun x hx => ih x (by simp [hx])))
         simp only [simplifyG.go, hg', hrest]
-        rfl
+        split <;> rfl
     obtain ⟨l, hl⟩ := (isOk_iff _).1 hgo
     simp only [simplifyG, hl]
     split <;> rfl
